@@ -173,6 +173,58 @@ func comparableGuardAt(blk *ssa.BasicBlock, ops ...ssa.Value) (string, bool) {
 		if isCmpOf(ifi.Cond) {
 			return "dominated by the true edge of reflect.TypeOf(operand).Comparable()", true
 		}
+		// the answer may be handed to an unexported helper as a boolean parameter: then every call site must pass
+		// reflect.TypeOf(X).Comparable() for the argument X that becomes one of the compared operands
+		if bp, isParam := ifi.Cond.(*ssa.Parameter); isParam && !sx.Exported(bp.Parent()) && bp.Parent().Pkg != nil {
+			h := bp.Parent()
+			bi := paramIndex(h, bp)
+			var opIdx []int
+			for _, op := range ops {
+				if q, isP := identity(op).(*ssa.Parameter); isP && q.Parent() == h {
+					opIdx = append(opIdx, paramIndex(h, q))
+				}
+			}
+			sites, all := 0, true
+			for _, mem := range h.Pkg.Members {
+				f, isFn := mem.(*ssa.Function)
+				if !isFn {
+					continue
+				}
+				fns := append([]*ssa.Function{f}, f.AnonFuncs...)
+				for _, g := range fns {
+					sx.EachInstr(g, func(in ssa.Instruction) {
+						call, isCall := in.(*ssa.Call)
+						if !isCall || sx.Callee(call) != h || bi < 0 || bi >= len(call.Call.Args) {
+							return
+						}
+						sites++
+						cc, isC := call.Call.Args[bi].(*ssa.Call)
+						okSite := false
+						if isC && cc.Call.IsInvoke() && cc.Call.Method.Name() == "Comparable" {
+							if tcall, isT := cc.Call.Value.(*ssa.Call); isT {
+								if tf := sx.Callee(tcall); tf != nil && sx.Is(tf, "reflect", "TypeOf") {
+									arg := tcall.Call.Args[0]
+									if mi, isMI := arg.(*ssa.MakeInterface); isMI {
+										arg = mi.X
+									}
+									for _, oi := range opIdx {
+										if oi >= 0 && oi < len(call.Call.Args) && identity(arg) == identity(call.Call.Args[oi]) {
+											okSite = true
+										}
+									}
+								}
+							}
+						}
+						if !okSite {
+							all = false
+						}
+					})
+				}
+			}
+			if sites > 0 && all {
+				return "dominated by a boolean parameter for which every call site passes reflect.TypeOf(operand).Comparable()", true
+			}
+		}
 	}
 	return "", false
 }
